@@ -1,1 +1,295 @@
-//! reference model stub (to be written)
+//! M-GIT: reference reading of git's colour-configuration syntax, restricted
+//! to what property C11 states (git-config(1), "color" value syntax):
+//!
+//!   value  := words separated by whitespace (leading/trailing allowed, may be empty)
+//!   colour := black|red|green|yellow|blue|magenta|cyan|white   (palette 0..=7)
+//!           | normal | -1                                      (no colour, but takes a slot)
+//!           | decimal 0..=255                                  (256-colour index)
+//!           | '#' h h h | '#' h h h h h h   (h = ASCII hexadecimal digit, nothing else)
+//!   attr   := ['no' ['-']] (bold|dim|ul|blink|reverse|italic|strike)
+//!   all keywords in any (ASCII) letter case.
+//!
+//! Denotation: first colour = foreground, second = background; attributes are
+//! applied left to right (the later of `x` / `nox` wins).  A third colour is an
+//! "extra colour" error naming that word; every other word is an "unknown
+//! word" error naming that word.
+//!
+//! Three-valued (`Unspecified`) where the statement is silent: a `+` sign or a
+//! negative zero / leading zeros on a decimal number, characters that only match
+//! through Unicode case folding or are non-ASCII digits, and separators that
+//! are whitespace for Unicode but not for C/ASCII (and VT, where the two ASCII
+//! definitions differ).  Nothing in here depends on the code under test.
+
+use crate::sgr::fx;
+
+#[derive(Clone, Copy, Debug, PartialEq, Eq, Hash, PartialOrd, Ord)]
+pub enum GitColor {
+    /// one of the eight names: palette index 0..=7
+    Named(u8),
+    /// decimal number
+    Idx(u8),
+    /// `#rrggbb`
+    Rgb(u8, u8, u8),
+    /// `#rgb`: the three digit values (0..=15).  git >= 2.45 reads `#f1b` as
+    /// `#ff11bb`; the statement does not say how the short form expands.
+    Rgb12(u8, u8, u8),
+}
+
+#[derive(Clone, Copy, Debug, PartialEq, Eq, Hash)]
+pub enum Word {
+    Attr { bit: u16, on: bool },
+    /// `None` = normal / -1
+    Color(Option<GitColor>),
+    Unknown,
+    Unspecified(&'static str),
+}
+
+#[derive(Clone, Copy, Debug, PartialEq, Eq, Hash, Default)]
+pub struct GitStyle {
+    pub fg: Option<GitColor>,
+    pub bg: Option<GitColor>,
+    /// anstyle effect bits (vmodel::sgr::fx)
+    pub effects: u16,
+}
+
+#[derive(Clone, Copy, Debug, PartialEq, Eq, Hash, PartialOrd, Ord)]
+pub enum GitErr {
+    ExtraColor,
+    UnknownWord,
+}
+
+#[derive(Clone, Debug, PartialEq, Eq, Hash)]
+pub enum Expect {
+    Style(GitStyle),
+    /// the value must be rejected; the error must be one of these (variant, word):
+    /// one entry per offending word, in input order (the statement does not say
+    /// which offending word is reported when there are several)
+    Errors(Vec<(GitErr, String)>),
+    Unspecified(&'static str),
+}
+
+pub const NAMES: [&str; 8] = ["black", "red", "green", "yellow", "blue", "magenta", "cyan", "white"];
+pub const ATTRS: [(&str, u16); 7] = [
+    ("bold", fx::BOLD),
+    ("dim", fx::DIMMED),
+    ("ul", fx::UNDERLINE),
+    ("blink", fx::BLINK),
+    ("reverse", fx::INVERT),
+    ("italic", fx::ITALIC),
+    ("strike", fx::STRIKETHROUGH),
+];
+
+fn hexval(c: u8) -> Option<u8> {
+    match c {
+        b'0'..=b'9' => Some(c - b'0'),
+        b'a'..=b'f' => Some(c - b'a' + 10),
+        b'A'..=b'F' => Some(c - b'A' + 10),
+        _ => None,
+    }
+}
+
+/// Separator classes used by the model.
+pub fn is_separator(c: char) -> bool {
+    matches!(c, ' ' | '\t' | '\n' | '\r' | '\x0c')
+}
+/// whitespace for some definitions only: left open
+pub fn is_disputed_separator(c: char) -> bool {
+    !is_separator(c) && (c == '\x0b' || c.is_whitespace())
+}
+
+pub fn classify(word: &str) -> Word {
+    if !word.is_ascii() {
+        if word.starts_with('#') {
+            // "hexadecimal digits only": a non-ASCII character is never one
+            return Word::Unknown;
+        }
+        // A keyword can only be matched by a non-ASCII word through Unicode case
+        // folding (U+212A KELVIN SIGN -> k, U+0130 -> i + U+0307), and a number only
+        // through non-ASCII digits: not covered by the statement.
+        for c in word.chars().filter(|c| !c.is_ascii()) {
+            if c.to_lowercase().any(|l| l.is_ascii()) || c.to_uppercase().any(|u| u.is_ascii()) {
+                return Word::Unspecified("character that folds to ASCII only under Unicode case mapping");
+            }
+            if c.is_numeric() {
+                return Word::Unspecified("non-ASCII digit");
+            }
+        }
+        return Word::Unknown;
+    }
+    let w = word.to_ascii_lowercase();
+    if let Some(i) = NAMES.iter().position(|n| *n == w) {
+        return Word::Color(Some(GitColor::Named(i as u8)));
+    }
+    if w == "normal" || w == "-1" {
+        return Word::Color(None);
+    }
+    let (on, rest) = match w.strip_prefix("no") {
+        Some(r) => (false, r.strip_prefix('-').unwrap_or(r)),
+        None => (true, w.as_str()),
+    };
+    if let Some((_, bit)) = ATTRS.iter().find(|(a, _)| *a == rest) {
+        return Word::Attr { bit: *bit, on };
+    }
+    if let Some(hex) = w.strip_prefix('#') {
+        let d: Option<Vec<u8>> = hex.bytes().map(hexval).collect();
+        return match d.as_deref() {
+            Some([r, g, b]) => Word::Color(Some(GitColor::Rgb12(*r, *g, *b))),
+            Some([r1, r0, g1, g0, b1, b0]) => Word::Color(Some(GitColor::Rgb(r1 * 16 + r0, g1 * 16 + g0, b1 * 16 + b0))),
+            _ => Word::Unknown,
+        };
+    }
+    // decimal numbers
+    let b = w.as_bytes();
+    let (sign, digits) = match b.first() {
+        Some(b'+') => (Some(b'+'), &b[1..]),
+        Some(b'-') => (Some(b'-'), &b[1..]),
+        _ => (None, b),
+    };
+    if !digits.is_empty() && digits.iter().all(|c| c.is_ascii_digit()) {
+        let mut v: u32 = 0;
+        for c in digits {
+            v = (v * 10 + (c - b'0') as u32).min(100_000);
+        }
+        let canonical = digits.len() == 1 || digits[0] != b'0';
+        return match sign {
+            None if v > 255 => Word::Unknown,
+            None if canonical => Word::Color(Some(GitColor::Idx(v as u8))),
+            None => Word::Unspecified("leading zeros on a decimal colour number"),
+            Some(b'+') if v <= 255 => Word::Unspecified("'+' sign on a decimal colour number"),
+            Some(b'+') => Word::Unknown,
+            // "-1" itself was handled above
+            _ if v <= 1 => Word::Unspecified("signed zero / zero-padded -1"),
+            _ => Word::Unknown,
+        };
+    }
+    Word::Unknown
+}
+
+/// Split into words; `Err` if a disputed separator occurs.
+pub fn words(s: &str) -> Result<Vec<&str>, &'static str> {
+    if s.chars().any(is_disputed_separator) {
+        return Err("separator that is whitespace only under some definitions (VT, NEL, NBSP, Unicode spaces)");
+    }
+    Ok(s.split(is_separator).filter(|w| !w.is_empty()).collect())
+}
+
+pub fn parse(s: &str) -> Expect {
+    let ws = match words(s) {
+        Ok(w) => w,
+        Err(why) => return Expect::Unspecified(why),
+    };
+    let mut st = GitStyle::default();
+    let mut ncol = 0;
+    let mut errs = vec![];
+    let mut unspecified = None;
+    for w in ws {
+        match classify(w) {
+            Word::Attr { bit, on } => {
+                if on {
+                    st.effects |= bit
+                } else {
+                    st.effects &= !bit
+                }
+            }
+            Word::Color(c) => {
+                match ncol {
+                    0 => st.fg = c,
+                    1 => st.bg = c,
+                    _ => errs.push((GitErr::ExtraColor, w.to_string())),
+                }
+                ncol += 1;
+            }
+            Word::Unknown => errs.push((GitErr::UnknownWord, w.to_string())),
+            Word::Unspecified(why) => unspecified = Some(why),
+        }
+    }
+    if let Some(why) = unspecified {
+        // could be a colour (moves the slots), an error, or anything: nothing to compare
+        return Expect::Unspecified(why);
+    }
+    if errs.is_empty() {
+        Expect::Style(st)
+    } else {
+        Expect::Errors(errs)
+    }
+}
+
+/// The harness's own printer: one canonical spelling per colour.
+pub fn print_color(c: Option<GitColor>) -> String {
+    match c {
+        None => "normal".to_string(),
+        Some(GitColor::Named(i)) => NAMES[i as usize].to_string(),
+        Some(GitColor::Idx(n)) => n.to_string(),
+        Some(GitColor::Rgb(r, g, b)) => format!("#{r:02x}{g:02x}{b:02x}"),
+        Some(GitColor::Rgb12(r, g, b)) => format!("#{r:x}{g:x}{b:x}"),
+    }
+}
+
+/// Print a style in git syntax.  `variant` selects between equivalent layouts:
+/// bit 0: attributes before the colours; bit 1: `-1` instead of `normal`;
+/// bit 2: upper case; bit 3: each attribute preceded by its `no-` form.
+pub fn print(st: &GitStyle, variant: u8) -> String {
+    let mut cols = vec![];
+    if st.fg.is_some() || st.bg.is_some() {
+        cols.push(print_color(st.fg));
+    }
+    if st.bg.is_some() {
+        cols.push(print_color(st.bg));
+    }
+    if variant & 2 != 0 {
+        for c in &mut cols {
+            if c == "normal" {
+                *c = "-1".to_string();
+            }
+        }
+    }
+    let mut attrs = vec![];
+    for (name, bit) in ATTRS {
+        if st.effects & bit != 0 {
+            if variant & 8 != 0 {
+                attrs.push(format!("no-{name}"));
+            }
+            attrs.push(name.to_string());
+        }
+    }
+    let all: Vec<String> = if variant & 1 != 0 { attrs.into_iter().chain(cols).collect() } else { cols.into_iter().chain(attrs).collect() };
+    let s = all.join(" ");
+    if variant & 4 != 0 {
+        s.to_ascii_uppercase()
+    } else {
+        s
+    }
+}
+
+#[cfg(test)]
+mod tests {
+    use super::*;
+    #[test]
+    fn basics() {
+        assert_eq!(classify("NoBold"), Word::Attr { bit: fx::BOLD, on: false });
+        assert_eq!(classify("no-UL"), Word::Attr { bit: fx::UNDERLINE, on: false });
+        assert_eq!(classify("no--ul"), Word::Unknown);
+        assert_eq!(classify("nono-ul"), Word::Unknown);
+        assert_eq!(classify("#+f+f+f"), Word::Unknown);
+        assert_eq!(classify("#a\u{e9}"), Word::Unknown);
+        assert_eq!(classify("#AbC"), Word::Color(Some(GitColor::Rgb12(10, 11, 12))));
+        assert_eq!(classify("256"), Word::Unknown);
+        assert_eq!(classify("-2"), Word::Unknown);
+        assert_eq!(classify("-1"), Word::Color(None));
+        assert!(matches!(classify("+1"), Word::Unspecified(_)));
+        assert!(matches!(classify("007"), Word::Unspecified(_)));
+        assert!(matches!(classify("blin\u{212a}"), Word::Unspecified(_)));
+        assert_eq!(
+            parse(" red\tblue bold nobold\n"),
+            Expect::Style(GitStyle { fg: Some(GitColor::Named(1)), bg: Some(GitColor::Named(4)), effects: 0 })
+        );
+        assert_eq!(
+            parse("red foo blue green"),
+            Expect::Errors(vec![(GitErr::UnknownWord, "foo".into()), (GitErr::ExtraColor, "green".into())])
+        );
+        let st = GitStyle { fg: None, bg: Some(GitColor::Rgb(1, 2, 255)), effects: fx::BOLD | fx::STRIKETHROUGH };
+        for v in 0..16 {
+            assert_eq!(parse(&print(&st, v)), Expect::Style(st), "{}", print(&st, v));
+        }
+    }
+}
